@@ -177,6 +177,56 @@ namespace World
 @[simp] theorem modArc_cap (w : World) (a : Nat) (f : ArcInfo → ArcInfo) :
     (w.modArc a f).exec.path.cap = w.exec.path.cap := rfl
 
+@[simp] theorem modFut_mt (w : World) (f : Nat) (g : FutSt → FutSt) :
+    (w.modFut f g).exec.maxThreads = w.exec.maxThreads := rfl
+@[simp] theorem modFut_cap (w : World) (f : Nat) (g : FutSt → FutSt) :
+    (w.modFut f g).exec.path.cap = w.exec.path.cap := rfl
+@[simp] theorem fenceSC_mt (w : World) :
+    w.fenceSC.exec.maxThreads = w.exec.maxThreads := rfl
+@[simp] theorem fenceSC_cap (w : World) :
+    w.fenceSC.exec.path.cap = w.exec.path.cap := rfl
+
+theorem tlsGet_exec (w : World) (k : Nat) : (w.tlsGet k).1.exec = w.exec := by
+  unfold tlsGet
+  dsimp only
+  split <;> rfl
+
+@[simp] theorem tlsGet_mt' (w : World) (k : Nat) :
+    (w.tlsGet k).1.exec.maxThreads = w.exec.maxThreads := by rw [tlsGet_exec]
+@[simp] theorem tlsGet_cap' (w : World) (k : Nat) :
+    (w.tlsGet k).1.exec.path.cap = w.exec.path.cap := by rw [tlsGet_exec]
+
+theorem tlsGet_mt {w : World} {k : Nat} {r : World × Option Nat} (h : w.tlsGet k = r) :
+    r.1.exec.maxThreads = w.exec.maxThreads ∧ r.1.exec.path.cap = w.exec.path.cap := by
+  subst h; exact ⟨tlsGet_mt' w k, tlsGet_cap' w k⟩
+
+theorem foldl_exec {α} (f : World → α → World) (hf : ∀ w a, (f w a).exec = w.exec)
+    (l : List α) (w : World) : (l.foldl f w).exec = w.exec := by
+  induction l generalizing w with
+  | nil => rfl
+  | cons a l ih => rw [List.foldl_cons, ih, hf]
+
+theorem dropLocals_exec (w : World) : w.dropLocals.exec = w.exec := by
+  unfold dropLocals
+  dsimp only
+  have key : ∀ (l : List Nat) (w0 : World),
+      (l.foldl (fun w k => { w with tlsDrops := w.tlsDrops.set k (w.tlsDrops.getD k 0 + 1) })
+        w0).exec = w0.exec := by
+    intro l w0; apply foldl_exec; intro _ _; rfl
+  split
+  · exact key _ _
+  · refine (foldl_exec _ ?_ _ _).trans (key _ _)
+    intro w a
+    split
+    · rfl
+    · exact tlsGet_exec _ _
+  · exact key _ _
+
+@[simp] theorem dropLocals_mt (w : World) :
+    w.dropLocals.exec.maxThreads = w.exec.maxThreads := by rw [dropLocals_exec]
+@[simp] theorem dropLocals_cap (w : World) :
+    w.dropLocals.exec.path.cap = w.exec.path.cap := by rw [dropLocals_exec]
+
 /-! ### effectful helpers -/
 
 theorem branch_mt {w w' : World} {obj : Nat} {act : Action} {bl : Bool} (h : w.branch obj act bl = .ok w') :
@@ -295,7 +345,8 @@ macro "mt_auto1" h:ident : tactic => `(tactic|
 
 namespace World
 
-theorem primStart_mt {w w' : World} {x : Nat} {p : Prim} (h : w.primStart x p = .ok w') :
+theorem primStart_mt {w w' : World} {x : Nat} {p : Prim} {next : Nat}
+    (h : w.primStart x p next = .ok w') :
     w'.exec.maxThreads = w.exec.maxThreads ∧ w'.exec.path.cap = w.exec.path.cap := by
   unfold primStart at h
   mt_auto1 h
@@ -309,8 +360,9 @@ end World
 
 macro "mt_sat2" : tactic => `(tactic|
   (mt_sat1
-   try (have := World.primStart_mt ‹World.primStart _ _ _ = Except.ok _›)
-   try (have := World.notifyWait1_mt ‹World.notifyWait1 _ _ = Except.ok _›)))
+   try (have := World.primStart_mt ‹World.primStart _ _ _ _ = Except.ok _›)
+   try (have := World.notifyWait1_mt ‹World.notifyWait1 _ _ = Except.ok _›)
+   try (have := World.tlsGet_mt ‹World.tlsGet _ _ = _›)))
 
 
 macro "mt_auto2" h:ident : tactic => `(tactic|
@@ -318,6 +370,58 @@ macro "mt_auto2" h:ident : tactic => `(tactic|
    all_goals first
      | (cases $h:ident; done)
      | (mt_sat2; (try cases $h:ident); simp_all; done)))
+
+namespace World
+
+theorem lazyGet_mt {w : World} {z : Nat} {r : World × Int} (h : w.lazyGet z = .ok r) :
+    r.1.exec.maxThreads = w.exec.maxThreads ∧ r.1.exec.path.cap = w.exec.path.cap := by
+  unfold lazyGet at h
+  mt_auto2 h
+
+theorem wakerClone_mt {w w' : World} {a : Nat} (h : w.wakerClone a = .ok w') :
+    w'.exec.maxThreads = w.exec.maxThreads ∧ w'.exec.path.cap = w.exec.path.cap := by
+  unfold wakerClone at h
+  mt_auto2 h
+
+theorem wakerDrop_mt {w w' : World} {a : Nat} (h : w.wakerDrop a = .ok w') :
+    w'.exec.maxThreads = w.exec.maxThreads ∧ w'.exec.path.cap = w.exec.path.cap := by
+  unfold wakerDrop at h
+  mt_auto2 h
+
+end World
+
+macro "mt_sat3" : tactic => `(tactic|
+  (mt_sat2
+   try (have := World.lazyGet_mt ‹World.lazyGet _ _ = Except.ok _›)
+   try (have := World.wakerClone_mt ‹World.wakerClone _ _ = Except.ok _›)
+   try (have := World.wakerDrop_mt ‹World.wakerDrop _ _ = Except.ok _›)))
+
+macro "mt_auto3" h:ident : tactic => `(tactic|
+  (mt_split $h
+   all_goals first
+     | (cases $h:ident; done)
+     | (mt_sat3; (try cases $h:ident); simp_all; done)))
+
+namespace World
+
+theorem blockOnStage_mt {w w' : World} {c : TCtl} {f mode : Nat}
+    (h : w.blockOnStage c f mode = .ok w') :
+    w'.exec.maxThreads = w.exec.maxThreads ∧ w'.exec.path.cap = w.exec.path.cap := by
+  unfold blockOnStage at h
+  mt_auto3 h
+
+theorem wakeStage_mt {w w' : World} {c : TCtl} {f : Nat} {b : Bool}
+    (h : w.wakeStage c f b = .ok w') :
+    w'.exec.maxThreads = w.exec.maxThreads ∧ w'.exec.path.cap = w.exec.path.cap := by
+  unfold wakeStage at h
+  mt_auto3 h
+
+theorem finishThread_mt {w w' : World} {c : TCtl} (h : w.finishThread c = .ok w') :
+    w'.exec.maxThreads = w.exec.maxThreads ∧ w'.exec.path.cap = w.exec.path.cap := by
+  unfold finishThread at h
+  mt_auto3 h
+
+end World
 
 /-! ### `runOp`, one lemma per operation -/
 
@@ -556,7 +660,57 @@ theorem runOp_tlsTry_mt {w w' : World} {c : TCtl} (m : Nat) (h : w.runOp c (Op.t
 theorem runOp_lazy_mt {w w' : World} {c : TCtl} (m : Nat) (h : w.runOp c (Op.lazy m) = .ok w') :
     w'.exec.maxThreads = w.exec.maxThreads ∧ w'.exec.path.cap = w.exec.path.cap := by
   simp only [runOp] at h
-  mt_auto2 h
+  mt_auto3 h
+
+theorem runOp_tlsNest_mt {w w' : World} {c : TCtl} (k j : Nat) (h : w.runOp c (Op.tlsNest k j) = .ok w') :
+    w'.exec.maxThreads = w.exec.maxThreads ∧ w'.exec.path.cap = w.exec.path.cap := by
+  simp only [runOp] at h
+  mt_split h
+  all_goals first
+    | (cases h; done)
+    | (rename_i h1 _ _ _ h2
+       have := tlsGet_mt h1; have := tlsGet_mt h2
+       cases h; simp_all; done)
+
+theorem runOp_tlsStat_mt {w w' : World} {c : TCtl} (m : Nat) (h : w.runOp c (Op.tlsStat m) = .ok w') :
+    w'.exec.maxThreads = w.exec.maxThreads ∧ w'.exec.path.cap = w.exec.path.cap := by
+  simp only [runOp] at h
+  mt_auto3 h
+
+theorem runOp_tlsObs_mt {w w' : World} {c : TCtl} (m : Nat) (h : w.runOp c (Op.tlsObs m) = .ok w') :
+    w'.exec.maxThreads = w.exec.maxThreads ∧ w'.exec.path.cap = w.exec.path.cap := by
+  simp only [runOp] at h
+  mt_auto3 h
+
+theorem runOp_lazyStat_mt {w w' : World} {c : TCtl} (m : Nat) (h : w.runOp c (Op.lazyStat m) = .ok w') :
+    w'.exec.maxThreads = w.exec.maxThreads ∧ w'.exec.path.cap = w.exec.path.cap := by
+  simp only [runOp] at h
+  mt_auto3 h
+
+theorem runOp_blockOn_mt {w w' : World} {c : TCtl} (f m : Nat) (h : w.runOp c (Op.blockOn f m) = .ok w') :
+    w'.exec.maxThreads = w.exec.maxThreads ∧ w'.exec.path.cap = w.exec.path.cap := by
+  simp only [runOp] at h
+  exact blockOnStage_mt h
+
+theorem runOp_wake_mt {w w' : World} {c : TCtl} (f : Nat) (h : w.runOp c (Op.wake f) = .ok w') :
+    w'.exec.maxThreads = w.exec.maxThreads ∧ w'.exec.path.cap = w.exec.path.cap := by
+  simp only [runOp] at h
+  exact wakeStage_mt h
+
+theorem runOp_wakeRef_mt {w w' : World} {c : TCtl} (f : Nat) (h : w.runOp c (Op.wakeRef f) = .ok w') :
+    w'.exec.maxThreads = w.exec.maxThreads ∧ w'.exec.path.cap = w.exec.path.cap := by
+  simp only [runOp] at h
+  exact wakeStage_mt h
+
+theorem runOp_dropWaker_mt {w w' : World} {c : TCtl} (f : Nat) (h : w.runOp c (Op.dropWaker f) = .ok w') :
+    w'.exec.maxThreads = w.exec.maxThreads ∧ w'.exec.path.cap = w.exec.path.cap := by
+  simp only [runOp] at h
+  mt_auto3 h
+
+theorem runOp_awWake_mt {w w' : World} {c : TCtl} (f : Nat) (h : w.runOp c (Op.awWake f) = .ok w') :
+    w'.exec.maxThreads = w.exec.maxThreads ∧ w'.exec.path.cap = w.exec.path.cap := by
+  simp only [runOp] at h
+  mt_auto3 h
 
 theorem runOp_stop_mt {w w' : World} {c : TCtl}  (h : w.runOp c Op.stop = .ok w') :
     w'.exec.maxThreads = w.exec.maxThreads ∧ w'.exec.path.cap = w.exec.path.cap := by
@@ -628,6 +782,15 @@ theorem runOp_mt {w w' : World} {c : TCtl} {op : Op} (h : w.runOp c op = .ok w')
   case tls => exact runOp_tls_mt _ h
   case tlsTry => exact runOp_tlsTry_mt _ h
   case lazy => exact runOp_lazy_mt _ h
+  case tlsNest => exact runOp_tlsNest_mt _ _ h
+  case tlsStat => exact runOp_tlsStat_mt _ h
+  case tlsObs => exact runOp_tlsObs_mt _ h
+  case lazyStat => exact runOp_lazyStat_mt _ h
+  case blockOn => exact runOp_blockOn_mt _ _ h
+  case wake => exact runOp_wake_mt _ h
+  case wakeRef => exact runOp_wakeRef_mt _ h
+  case dropWaker => exact runOp_dropWaker_mt _ h
+  case awWake => exact runOp_awWake_mt _ h
   case stop => exact runOp_stop_mt h
   case explore => exact runOp_explore_mt h
   case skip => exact runOp_skip_mt h
@@ -638,7 +801,11 @@ theorem runOp_mt {w w' : World} {c : TCtl} {op : Op} (h : w.runOp c op = .ok w')
 theorem runEpilogue_mt {w w' : World} {c : TCtl} (h : w.runEpilogue c = .ok w') :
     w'.exec.maxThreads = w.exec.maxThreads ∧ w'.exec.path.cap = w.exec.path.cap := by
   unfold runEpilogue at h
-  mt_auto2 h
+  mt_split h
+  all_goals first
+    | (cases h; done)
+    | exact finishThread_mt h
+    | (mt_sat2; (try cases h); simp_all; done)
 
 theorem stepActive_mt {w w' : World} (h : w.stepActive = .ok w') :
     w'.exec.maxThreads = w.exec.maxThreads ∧ w'.exec.path.cap = w.exec.path.cap := by
@@ -667,7 +834,7 @@ theorem init_mt {prog : Prog} {e : Exec} {w : World} (h : World.init prog e = .o
     w.exec.maxThreads = e.maxThreads ∧ w.exec.path.cap = e.path.cap := by
   unfold World.init at h
   simp only [Except.bind_eq_ok'] at h
-  obtain ⟨_, _, _, _, _, _, _, _, _, _, _, _, _, _, h⟩ := h
+  obtain ⟨_, _, _, _, _, _, _, _, _, _, _, _, _, _, _, _, h⟩ := h
   cases h
   exact ⟨rfl, rfl⟩
 
